@@ -303,7 +303,14 @@ class Ctx:
                 raise SolverUnknown("concretize")
             v = m.eval(term, model_completion=True)
             if not z3.is_int_value(v):
-                raise Unsupported(f"cannot concretise {term}")
+                # the evaluator leaves e.g. x/0 of completed-away variables unevaluated: ask for the value explicitly
+                kv = z3.Int("__concretise")
+                r, m = fresh_check(list(self.pc) + [kv == term], self.timeout_ms, want_model=True, stats=self.stats)
+                if r == "unknown":
+                    raise SolverUnknown("concretize")
+                v = m.eval(kv, model_completion=True) if r == "sat" else None
+                if v is None or not z3.is_int_value(v):
+                    raise Unsupported(f"cannot concretise {term}")
             v = v.as_long()
             if self.branch(term == v):
                 return v
